@@ -261,12 +261,11 @@ def load_contracts():
         for line in open(os.path.join(cdir, fn)):
             if line.startswith('@@'):
                 parts = [p.strip() for p in line[2:].split('::')]
-                cur = dict(file=parts[0], owner=parts[1], fn=parts[2], params=[], profiles=['default'], attrs=[], src=fn)
+                cur = dict(file=parts[0], owner=parts[1], fn=parts[2], params=[], attrs=[], src=fn)
+                cur['key'] = parts[2] if parts[1] in ('-', '') else parts[1] + '::' + parts[2]
                 for extra in parts[3:]:
                     if extra.startswith('params'):
                         cur['params'] = [x.strip() for x in extra[len('params'):].split(',') if x.strip()]
-                    elif extra.startswith('profile'):
-                        cur['profiles'] = [x.strip() for x in extra[len('profile'):].split(',') if x.strip()]
                 entries.append(cur)
             elif cur is not None and line.strip() and not line.lstrip().startswith('//'):
                 cur['attrs'].append(line.rstrip('\n'))
@@ -277,8 +276,34 @@ def sha(s):
     return hashlib.sha256(s.encode()).hexdigest()
 
 
-def weave_kani(repo, out, profile='default'):
-    """returns metadata: functions under contract with body hashes"""
+def strip_inactive_contract_harnesses(text, active):
+    """A harness with proof_for_contract / stub_verified attributes only compiles when the named
+    functions carry contracts in this copy.  For harnesses outside `active` the attribute lines are
+    removed (the fn stays as dead code)."""
+    lines = text.split('\n')
+    out = []
+    i = 0
+    while i < len(lines):
+        if lines[i].lstrip().startswith('#[kani::proof_for_contract') or lines[i].lstrip().startswith('#[kani::stub_verified'):
+            j = i
+            while j < len(lines) and lines[j].lstrip().startswith('#['):
+                j += 1
+            m = re.match(r'\s*(pub\s+)?fn\s+(\w+)', lines[j]) if j < len(lines) else None
+            if m and m.group(2) in active:
+                out.extend(lines[i:j])
+            else:
+                out.extend(l for l in lines[i:j] if not (l.lstrip().startswith('#[kani::proof_for_contract') or l.lstrip().startswith('#[kani::stub_verified')))
+                out.append('#[allow(dead_code)]')
+            i = j
+            continue
+        out.append(lines[i])
+        i += 1
+    return '\n'.join(out)
+
+
+def weave_kani(repo, out, uses=(), active=()):
+    """uses: contract keys ('fn' or 'Owner::fn') to weave in place; active: names of the contract
+    harnesses that are run on this copy.  Returns metadata: functions under contract with body hashes"""
     crate = os.path.join(out, 'kani-crate')
     if os.path.exists(crate):
         shutil.rmtree(crate)
@@ -296,8 +321,13 @@ def weave_kani(repo, out, profile='default'):
 
     meta = {'functions_under_contract': [], 'appended_modules': []}
     by_file = {}
-    for e in load_contracts():
-        if profile in e['profiles'] or 'all' in e['profiles']:
+    available = load_contracts()
+    keys = set(e['key'] for e in available)
+    for u in uses:
+        if u not in keys:
+            raise WeaveError('contract %s is not defined in /verif/contracts' % u)
+    for e in available:
+        if e['key'] in uses:
             by_file.setdefault(e['file'], []).append(e)
     for rel, entries in by_file.items():
         path = os.path.join(crate, rel)
@@ -330,7 +360,8 @@ def weave_kani(repo, out, profile='default'):
             target = os.path.join(crate, 'src', base)
             if not os.path.exists(target):
                 raise WeaveError('anchor lost: src/%s (for %s)' % (base, fn))
-            shutil.copy(os.path.join(kdir, fn), os.path.join(crate, 'src', fn))
+            txt = open(os.path.join(kdir, fn)).read()
+            open(os.path.join(crate, 'src', fn), 'w').write(strip_inactive_contract_harnesses(txt, set(active)))
             with open(target, 'a') as f:
                 f.write('\n#[cfg(kani)]\n#[path = "%s"]\nmod verif;\n' % fn)
             meta['appended_modules'].append(fn)
@@ -343,9 +374,10 @@ def weave_kani(repo, out, profile='default'):
 if __name__ == '__main__':
     repo = sys.argv[1] if len(sys.argv) > 1 else '/repo'
     out = sys.argv[2] if len(sys.argv) > 2 else '/var/tmp/verif-scratch/manual'
-    prof = sys.argv[3] if len(sys.argv) > 3 else 'default'
+    uses = sys.argv[3].split(',') if len(sys.argv) > 3 and sys.argv[3] else []
+    active = sys.argv[4].split(',') if len(sys.argv) > 4 else []
     try:
-        m = weave_kani(repo, out, prof)
+        m = weave_kani(repo, out, uses, active)
     except WeaveError as e:
         print('UNDECIDED reason=%s' % e)
         sys.exit(2)
